@@ -123,6 +123,12 @@ func (h *Hub) ServeHTTP(w http.ResponseWriter, r *http.Request) {
 
 	// don't allow a second connection
 	h.muxConSetup.Lock()
+	// the hub may have been shut down while the connection was being established
+	if h.checkIsShutdown() {
+		h.muxConSetup.Unlock()
+		_ = conn.Close()
+		return
+	}
 	if !h.keepThisConnection(conn, true, remoteService) {
 		h.muxConSetup.Unlock()
 		_ = conn.Close()
@@ -212,6 +218,13 @@ func (h *Hub) connectFoundService(remoteService *api.ServiceDetails, host, port,
 	}
 
 	h.muxConSetup.Lock()
+
+	// the hub may have been shut down while the connection was being established
+	if h.checkIsShutdown() {
+		h.muxConSetup.Unlock()
+		_ = conn.Close()
+		return nil
+	}
 
 	// the pairing may have been removed or cancelled while the connection was being established
 	pairingState := h.ServiceForSKI(remoteService.SKI()).ConnectionStateDetail().State()
